@@ -29,18 +29,19 @@ func runC02(c *Ctx) {
 	c02Refusals(c, fK256)
 	c02BigIDs(c, fK256)
 	if c.Thorough() {
-		c02Exhaustive(c, fK256, 4, 11)
-		c02Exhaustive(c, fBLS, 3, 12)
-		c02Random(c, fK256, 150, 1)
-		c02Random(c, fEd25519, 100, 2)
-		c02Random(c, fBLS, 100, 3)
-		c02Random(c, fP256, 60, 4)
-		c02Random(c, fPallas, 60, 5)
+		c02Exhaustive(c, fK256, 5, 11)
+		c02Exhaustive(c, fBLS, 4, 12)
+		c02Exhaustive(c, fEd25519, 3, 13)
+		c02Random(c, fK256, 400, 1)
+		c02Random(c, fEd25519, 250, 2)
+		c02Random(c, fBLS, 250, 3)
+		c02Random(c, fP256, 150, 4)
+		c02Random(c, fPallas, 150, 5)
 	} else {
 		c02Exhaustive(c, fK256, 3, 11)
-		c02Random(c, fK256, 14, 1)
-		c02Random(c, fEd25519, 9, 2)
-		c02Random(c, fBLS, 9, 3)
+		c02Random(c, fK256, 40, 1)
+		c02Random(c, fEd25519, 25, 2)
+		c02Random(c, fBLS, 25, 3)
 	}
 }
 
@@ -862,7 +863,7 @@ func c02Exhaustive[S algebra.PrimeFieldElement[S]](c *Ctx, f algebra.PrimeField[
 					for i, m := range chosen {
 						sets[i] = subsetOf(ids, m)
 					}
-					c02Family(c, r, f, &c02Policy{kind: "cnf", sets: sets}, true, idx)
+					c02Family(c, r, f, &c02Policy{kind: "cnf", sets: sets}, n <= 4, idx)
 					idx++
 				}
 			}
@@ -893,7 +894,7 @@ func c02Exhaustive[S algebra.PrimeFieldElement[S]](c *Ctx, f algebra.PrimeField[
 							levels = append(levels, c02Level{t: ts[j], ids: ids[off : off+s]})
 							off += s
 						}
-						c02Family(c, r, f, &c02Policy{kind: "hi", levels: levels}, true, idx)
+						c02Family(c, r, f, &c02Policy{kind: "hi", levels: levels}, n <= 4, idx)
 						idx++
 						return
 					}
